@@ -503,6 +503,12 @@ def judge(rec, cls, params, fnkey, ctx, st, val, parts, alts, nontrivial,
 				"outputs over %d annotations" % (ctx.n_out, n_ann),
 				"error": repr(val)[:200]})
 			return
+		if params.get("startkind") == "tensor0d" and params.get(
+			"start") is not None:
+			# a 0-d tensor is not a documented kind of position
+			rec.refusal(cls, params, "tensor position refused: " + repr(
+				val)[:100])
+			return
 		viol(pre + "-raised", {"what": "raised on a valid configuration",
 			"error": repr(val)[:300], "where": [f.name for f in
 			traceback.extract_tb(val.__traceback__)][-4:]})
